@@ -96,6 +96,19 @@ def tile_grids(thorough=False, n=3):
     return cs
 
 
+def palette_blocks(thorough=False, n=2):
+    """screen-content tools forced on over content whose blocks hold 2..8 exact luma colours (1..4 chroma colours) drawn from a pool of
+    coding-boundary values: palette sizes, colour-cache hits and the delta / bit-width corners of the palette colour syntax, 8 and 10 bit"""
+    cs = []
+    for bd in (8, 10):
+        for pl in ((1, 6) if not thorough else (1, 2, 3, 4, 5, 6)):
+            for pr in ((8,) if not thorough else (8, 4, 2)):
+                for seed in ((1, 2) if not thorough else (1, 2, 3, 4)):
+                    cs.append(mk("palette:encoder_bit_depth=%d,palette_level=%d,preset=%d,seed=%d/128x128/palette" % (bd, pl, pr, seed), 128, 128, n, "palette",
+                                 encoder_bit_depth=bd, screen_content_mode=1, palette_level=pl, enc_mode=pr, intra_period_length=0, cseed=seed))
+    return cs
+
+
 def sb128_corners(thorough=False, n=3):
     """128x128 superblocks with a picture whose width and height both end half-way through a superblock (w % 128 == h % 128 == 64):
     the bottom-right superblock keeps a single 64x64 quadrant.  128x128 superblocks are only chosen by presets <= 4 (with TPL off or
